@@ -80,6 +80,7 @@ type Unit struct {
 	assertCallSeen map[int]bool
 	sentinels      map[string]Term
 	slices         map[string]sliceInfo
+	curFrame       *Frame
 }
 
 // sliceInfo: syntactically known header of a slice value created on this run.
